@@ -54,8 +54,20 @@ func (fx *FnCtx) makeInterface(st *State, pc *Term, t *ssa.MakeInterface) Value 
 	var ref *Term
 	switch {
 	case x.P != nil:
-		sv := fx.storable(x)
-		ref = sv.L[0]
+		if fx.ifacePtrs == nil {
+			fx.ifacePtrs = map[ssa.Value]*PtrInfo{}
+		}
+		fx.ifacePtrs[t] = x.P
+		p := x.P
+		if (p.Kind == PObj && p.Off == 0 && len(p.ArrIdx) == 0 && types.Identical(p.Root, p.Typ)) || (p.Kind == PElem && p.Idx == nil && len(p.ArrIdx) == 0) {
+			sv := fx.storable(x)
+			ref = sv.L[0]
+		} else {
+			// an interior pointer: the interface value is opaque (only models of callees that are
+			// given the MakeInterface instruction itself, such as binary.Read, can use the pointer)
+			ref = Fresh("ifaceptr", tc.IdxSort())
+			fx.assume(tc.IdxLt(tc.IdxNum(0), ref))
+		}
 	case len(x.L) == 1 && x.L[0].Sort == tc.IdxSort():
 		ref = x.L[0]
 	default:
